@@ -1040,6 +1040,9 @@ def check_v2_reader_eval(chk) -> bool:
             kinds = list(full._cols.get("record_type", []))
             if models != [1, 1, 1, 2, 2] or kinds != ["ATOM", "ATOM", "HETATM", "ATOM", "HETATM"]:
                 other.append(f"a file with MODEL 1 (two atoms, TER, a water) and MODEL 2 (one atom, TER, a water) yields records {kinds} of models {models}")
+        second = whole([m(2), atom_line, "ENDMDL".ljust(80), "END".ljust(80)], "a file whose first line is MODEL 2")
+        if second is not None and [None if isna(v) else int(v) for v in second._cols.get("model", [])] != [2]:
+            other.append(f"a file whose first line is `MODEL        2` yields atoms of model(s) {list(second._cols.get('model', []))}: the first line of the file is not read")
         nomodel = whole([atom_line], "a file of one atom record")
         if nomodel is not None:
             if [int(v) for v in nomodel._cols.get("model", []) if not isna(v)] != [1]:
@@ -1282,4 +1285,148 @@ def check_cif_atoms_eval(chk) -> bool:
         )
         chk.expect(not bad.get("types"), "cif-table", fi.where, "evaluated: coordinates, occupancy and B as numbers, label_seq_id / model / charge as integers (the sign kept), the other items as their text", "items are typed or copied wrongly: " + "; ".join(sorted(set(bad.get("types", [])))[:3]), K(fi, "cif-types"), found=sorted(set(bad.get("types", [])))[:6])
         report_silent_exits(chk, "cif-table", [fi] + new_helpers(repo, "parser_v2"), cov, "atom_site categories", {"continue": "the row (or item) is skipped", "break": "reading stops there", "return": "a table is returned before all rows are read"})
+    return True
+
+
+# --------------------------------------------------------------------------------------------------------------------
+# round 6: filter_clashing_atoms evaluated (duplicates and clashes decided on the atoms it returns)
+# --------------------------------------------------------------------------------------------------------------------
+class _KDTree:
+    """scipy.spatial.KDTree as far as the filter uses it: pairs of points not farther apart than r (by brute force; completeness of the
+    real tree is trusted).  Indices are positions in the sequence the tree was built from."""
+
+    _folder_stub = True
+
+    def __init__(self, data, *a, **k):
+        self.data = [tuple(float(c) for c in p) for p in data]
+        self.n = len(self.data)
+
+    @staticmethod
+    def _d(p, q):
+        return sum((a - b) ** 2 for a, b in zip(p, q)) ** 0.5
+
+    def query_pairs(self, r, *a, output_type="set", **k):
+        pairs = {(i, j) for i in range(self.n) for j in range(i + 1, self.n) if self._d(self.data[i], self.data[j]) <= r}
+        return pairs if output_type == "set" else sorted(pairs)
+
+    def query_ball_point(self, x, r, *a, **k):
+        if x and isinstance(x[0], (list, tuple)):
+            return [[i for i in range(self.n) if self._d(self.data[i], tuple(p)) <= r] for p in x]
+        return [i for i in range(self.n) if self._d(self.data[i], tuple(x)) <= r]
+
+
+def _np_for_filter() -> Obj:
+    return Obj("np", array=lambda x, *a, **k: [tuple(p) if isinstance(p, (list, tuple)) else p for p in x], asarray=lambda x, *a, **k: list(x), empty=lambda *a, **k: [], linalg=Obj("linalg", norm=lambda v, *a, **k: sum(float(c) ** 2 for c in v) ** 0.5))
+
+
+def _fatom(tag: str, model: int = 1, res: str = "A1", name: str = "P", xyz=(0.0, 0.0, 0.0), occ: Any = 1.0) -> Obj:
+    return Obj(tag, entity_id="1", label=("L", res), auth=("A", res), model=model, name=name, x=float(xyz[0]), y=float(xyz[1]), z=float(xyz[2]), occupancy=occ, coordinates=tuple(float(c) for c in xyz))
+
+
+def filter_cases() -> List[Tuple[str, str, List[Obj], List[List[str]]]]:
+    """(description, fact, atoms in file order, acceptable results as lists of tags in order)"""
+    far = lambda k: (10.0 * k, 0.0, 0.0)
+    C: List[Tuple[str, str, List[Obj], List[List[str]]]] = []
+    # duplicates: same (model, label, auth, name)
+    C.append(("two copies of one atom, the second with the higher occupancy", "occupancy-wins", [_fatom("a", xyz=far(0), occ=0.4), _fatom("b", xyz=far(1), occ=0.6)], [["b"]]))
+    C.append(("two copies of one atom, the first with the higher occupancy", "occupancy-wins", [_fatom("a", xyz=far(0), occ=0.6), _fatom("b", xyz=far(1), occ=0.4)], [["a"]]))
+    C.append(("three copies with occupancies 0.3, 0.5, 0.2", "occupancy-wins", [_fatom("a", xyz=far(0), occ=0.3), _fatom("b", xyz=far(1), occ=0.5), _fatom("c", xyz=far(2), occ=0.2)], [["b"]]))
+    C.append(("two copies, the first without occupancy", "optional-occupancy", [_fatom("a", xyz=far(0), occ=None), _fatom("b", xyz=far(1), occ=0.5)], [["b"]]))
+    C.append(("two copies, the second without occupancy", "optional-occupancy", [_fatom("a", xyz=far(0), occ=0.5), _fatom("b", xyz=far(1), occ=None)], [["a"]]))
+    C.append(("two copies, both without occupancy", "optional-occupancy", [_fatom("a", xyz=far(0), occ=None), _fatom("b", xyz=far(1), occ=None)], [["a"], ["b"]]))
+    C.append(("the same atom in models 1 and 2", "identity-key-model", [_fatom("a", model=1, xyz=far(0), occ=0.4), _fatom("b", model=2, xyz=far(0), occ=0.6)], [["a", "b"]]))
+    C.append(("equally named atoms of two residues", "identity-key", [_fatom("a", res="A1", xyz=far(0)), _fatom("b", res="A2", xyz=far(1))], [["a", "b"]]))
+    C.append(("two atoms of one residue with different names", "identity-key", [_fatom("a", name="P", xyz=far(0)), _fatom("b", name="OP1", xyz=far(1))], [["a", "b"]]))
+    # clashes: different atoms closer than the clash distance
+    near = lambda d: (d, 0.0, 0.0)
+    C.append(("two atoms 0.3 A apart, the second with the lower occupancy", "clash-loser", [_fatom("a", name="P", occ=0.7), _fatom("b", name="OP1", xyz=near(0.3), occ=0.3)], [["a"]]))
+    C.append(("two atoms 0.3 A apart, the first with the lower occupancy", "clash-loser", [_fatom("a", name="P", occ=0.3), _fatom("b", name="OP1", xyz=near(0.3), occ=0.7)], [["b"]]))
+    C.append(("two atoms 0.3 A apart with equal occupancy", "clash-loser", [_fatom("a", name="P", occ=0.5), _fatom("b", name="OP1", xyz=near(0.3), occ=0.5)], [["a"], ["b"]]))
+    C.append(("two atoms 0.3 A apart in different models", "clash-same-model", [_fatom("a", name="P", model=1, occ=0.7), _fatom("b", name="OP1", model=2, xyz=near(0.3), occ=0.3)], [["a", "b"]]))
+    C.append(("two atoms 0.3 A apart, one without occupancy", "optional-occupancy", [_fatom("a", name="P", occ=None), _fatom("b", name="OP1", xyz=near(0.3), occ=0.3)], [["a", "b"]]))
+    C.append(("two atoms 0.45 A apart", "clash-distance", [_fatom("a", name="P", occ=0.7), _fatom("b", name="OP1", xyz=near(0.45), occ=0.3)], [["a"]]))
+    C.append(("two atoms 0.55 A apart", "clash-distance", [_fatom("a", name="P", occ=0.7), _fatom("b", name="OP1", xyz=near(0.55), occ=0.3)], [["a", "b"]]))
+    C.append(("four well separated atoms", "order", [_fatom("a", name="P", xyz=far(3)), _fatom("b", name="OP1", xyz=far(1)), _fatom("c", name="OP2", xyz=far(2)), _fatom("d", name="C4'", xyz=far(0))], [["a", "b", "c", "d"]]))
+    # a duplicate in front of a clashing pair: tree positions are positions in the de-duplicated list, not in the input
+    C.append(("a duplicated atom listed before a clashing pair", "kdtree-index-space", [_fatom("d1", name="N1", xyz=far(5), occ=0.4), _fatom("d2", name="N1", xyz=far(6), occ=0.6), _fatom("x", name="P", xyz=far(1), occ=0.7), _fatom("y", name="OP1", xyz=(10.3, 0.0, 0.0), occ=0.3), _fatom("z", name="C4'", xyz=far(3), occ=0.2)], [["d2", "x", "z"]]))
+    C.append(("an atom without occupancy listed before a clashing pair", "kdtree-index-space", [_fatom("n", name="N1", xyz=far(5), occ=None), _fatom("x", name="P", xyz=far(1), occ=0.7), _fatom("y", name="OP1", xyz=(10.3, 0.0, 0.0), occ=0.3), _fatom("z", name="C4'", xyz=far(3), occ=0.2)], [["n", "x", "z"]]))
+    C.append(("a clashing pair of model 2 behind atoms of model 1 at the same place", "clash-same-model", [_fatom("m1", model=1, name="P", occ=0.9), _fatom("x", model=2, name="P", occ=0.3), _fatom("y", model=2, name="OP1", xyz=near(0.2), occ=0.7)], [["m1", "y"]]))
+    return C
+
+
+def check_filter_eval(chk) -> bool:
+    """filter_clashing_atoms interpreted on atom lists (numpy arrays as lists, the KD-tree as a brute-force neighbour search): which
+    atoms come back.  Rules occupancy-wins, optional-occupancy, identity-key-model, clash-loser, clash-same-model, clash-distance,
+    kdtree-index-space, clash-loop."""
+    from sa.fragment import coverage
+
+    repo = chk.repo
+    fi = repo.func(P, "filter_clashing_atoms")
+    bad: Dict[str, List[str]] = {}
+    cases = filter_cases()
+    _cov = coverage()
+    cov = _cov.__enter__()
+    try:
+        env: Dict[str, Any] = {"np": _np_for_filter(), "numpy": _np_for_filter(), "KDTree": _KDTree, "cKDTree": _KDTree}
+        env.update(module_callables(repo, P, outer=env))
+        for tag, fact, atoms, accept in cases:
+            call = func_callable(repo, P, fi.node, env, max_steps=20000)
+            try:
+                res = call(list(atoms))
+            except Raised as ex:
+                bad.setdefault(fact, []).append(f"{tag}: raises {ex.name}")
+                continue
+            except Unknown:
+                raise
+            except Exception as ex:
+                bad.setdefault(fact, []).append(f"{tag}: raises {type(ex).__name__} ({str(ex)[:50]})")
+                continue
+            got = [getattr(a, "_tag", repr(a)) for a in res] if isinstance(res, (list, tuple)) else None
+            if got is None:
+                bad.setdefault(fact, []).append(f"{tag}: the result is not a list of atoms")
+            elif got not in accept:
+                order = sorted(got) == sorted(accept[0]) and got != accept[0]
+                def bystander(a) -> bool:
+                    """neither a copy of another atom nor within the clash distance of another atom of its model: nothing can remove it"""
+                    for b in atoms:
+                        if b is a:
+                            continue
+                        if (a.model, a.label, a.auth, a.name) == (b.model, b.label, b.auth, b.name):
+                            return False
+                        if a.model == b.model and sum((p - q) ** 2 for p, q in zip(a.coordinates, b.coordinates)) ** 0.5 <= 0.5:
+                            return False
+                    return True
+
+                wrong_one = [a._tag for a in atoms if a._tag not in got and bystander(a)]
+                if wrong_one and not order and len(got) == len(accept[0]):
+                    # the right number of atoms goes, but another atom than the loser: positions are read in the wrong list
+                    bad.setdefault("kdtree-index-space", []).append(f"{tag}: atom `{wrong_one[0]}` is dropped instead of the loser of the clash (atoms {got} come back, expected {' or '.join(str(x) for x in accept)}) - positions reported by the neighbour search are read in another list than the one it was built from")
+                    continue
+                bad.setdefault("order" if order else fact, []).append(f"{tag}: atoms {got} come back, expected {' or '.join(str(x) for x in accept)}" + (" (the same atoms in another order than the file's)" if order else ""))
+    except Unknown as ex:
+        chk.ok("filter-eval", fi.where, f"filter_clashing_atoms is not evaluable on representative atom lists ({str(ex)[:80]}): the path rules decide")
+        return False
+    finally:
+        _cov.__exit__(None, None, None)
+    texts = {
+        "occupancy-wins": "of several copies of one atom (same model, residue and name) the one with the highest occupancy is kept, the first of equals",
+        "optional-occupancy": "a copy without occupancy loses against one with an occupancy, never raises; a clash with an atom without occupancy drops nothing",
+        "identity-key-model": "copies are recognised within one model only: the same atom of two models is kept twice",
+        "identity-key": "atoms of different residues or with different names are different atoms",
+        "clash-loser": "of two different atoms of one model closer than the clash distance the one with the lower occupancy goes (one of equals)",
+        "clash-same-model": "atoms of different models never clash",
+        "clash-distance": "the clash distance is 0.5 A (0.45 clashes, 0.55 does not)",
+        "kdtree-index-space": "positions reported by the neighbour search are read in the list the search was built from",
+        "order": "the atoms that stay come back in file order",
+    }
+    with evidence(chk, "occupancy-wins", "optional-occupancy", "identity-key-model", "clash-loser", "clash-same-model", "clash-distance", "kdtree-index-space", "clash-loop"):
+        for fact, text in texts.items():
+            rule = {"identity-key": "identity-key-model", "order": "clash-loop"}.get(fact, fact)
+            if fact in bad:
+                chk.violation(rule, fi.where, "; ".join(bad[fact][:2]), K(fi, f"filter-eval:{fact}"), found=bad[fact][:4])
+            else:
+                chk.ok(rule, fi.where, f"evaluated on {len(cases)} atom lists: {text}")
+                if fact == "optional-occupancy":
+                    chk.ok(rule, fi.where, "evaluated: two copies without any occupancy, and a clash where one atom has none, are handled without comparing None")
+        report_silent_exits(chk, "clash-loop", [fi] + new_helpers(repo, P), cov, "atom lists", {"continue": "a pair of clashing atoms (or a copy) is passed over", "break": "the filter stops before all atoms are looked at", "return": "atoms are returned before the filter is complete"})
     return True
